@@ -1027,6 +1027,9 @@ impl World for StakingWorld {
         if !s.active && rng.chance(2, 3) {
             return o("resume".into());
         }
+        if !s.prod && rng.chance(1, 3) {
+            return o("startProduce".into());
+        }
         let weights = [
             12, // 0 stake
             10, // 1 claim
@@ -1037,7 +1040,7 @@ impl World for StakingWorld {
             5,  // 6 claimBoosted
             4,  // 7 transfer
             9,  // 8 proxy
-            4,  // 9 behalf
+            7,  // 9 behalf
             6,  // 10 setEnergy / updEnergy
             15, // 11 advance
             4,  // 12 topUp
@@ -1171,20 +1174,20 @@ impl World for StakingWorld {
                 let c = if rng.chance(1, 2) { nu + 1 } else { (u + 1) % nu };
                 let cn = self.name(c);
                 let authorised = self.hub_pairs.contains(&(u, c));
-                if !authorised && rng.chance(4, 5) {
+                if !authorised && rng.chance(9, 10) {
                     return o(format!("hubWl {} {}", un, cn));
                 }
                 let pos_c: Vec<_> = Self::positions_of(&s, c).into_iter().filter(|p| p.3 == u).collect();
-                match rng.below(6) {
+                match rng.below(12) {
                     0 => o(format!("hubRm {} {}", un, cn)),
-                    1 | 2 => {
+                    1..=5 => {
                         let mut t = format!("stakeBehalf {} {} {}", cn, un, amount_mix(rng));
                         if !pos_c.is_empty() && rng.chance(1, 2) {
                             t += &format!(" {}", Self::pick_pays(rng, &pos_c, 2).join(" "));
                         }
                         o(t)
                     }
-                    3 | 4 if !pos_c.is_empty() => o(format!("claimBehalf {} {}", cn, Self::pick_pays(rng, &pos_c, 2).join(" "))),
+                    6..=9 if !pos_c.is_empty() => o(format!("claimBehalf {} {}", cn, Self::pick_pays(rng, &pos_c, 2).join(" "))),
                     _ => {
                         if pos_u.is_empty() {
                             o(format!("stakeBehalf {} {} {}", cn, un, amount_mix(rng)))
@@ -1219,12 +1222,13 @@ impl World for StakingWorld {
                     6 => 100_800,
                     _ => rng.range(1, 3),
                 };
-                let epochs = match rng.below(10) {
+                let epochs = match rng.below(12) {
                     0..=3 => 0,
                     4 => 1,
                     5 => rng.range(2, 6),
                     6 | 7 => 7,
                     8 => rng.range(8, 30),
+                    9 => 7 * rng.range(4, 7), // far enough for collectUndistributedBoostedRewards
                     _ => 7 - ((s.epoch - s.first) % 7), // exactly to the next week boundary
                 };
                 o(format!("advance {} {}", blocks, epochs))
@@ -1263,6 +1267,7 @@ impl World for StakingWorld {
                     *rng.pick(&[1u64, 1, 1, 1000, 1_000_000_000])
                 )),
                 11 => o("collectUndist".into()),
+                12 if s.week > 5 => o("collectUndist".into()),
                 12 => o("pause".into()),
                 _ => o("resume".into()),
             },
